@@ -74,8 +74,9 @@ type pair struct {
 
 // sliceReader is a slice-backed SSTableReaderI, so the stacked reader can be driven without disk.
 type sliceReader struct {
-	ps     []pair
-	nilKey bool
+	sstables.SSTableReaderI // nil: only there so that the fake keeps compiling when the interface grows
+	ps                      []pair
+	nilKey                  bool
 }
 
 func (s *sliceReader) key(k []byte) []byte {
@@ -134,8 +135,9 @@ func (s *sliceReader) MetaData() *proto.MetaData {
 func (s *sliceReader) BasePath() string { return "slice" }
 
 type sliceIt struct {
-	r        *sliceReader
-	pos, end int
+	sstables.SSTableIteratorI // nil, see sliceReader
+	r                         *sliceReader
+	pos, end                  int
 }
 
 func (it *sliceIt) Next() ([]byte, []byte, error) {
@@ -148,7 +150,8 @@ func (it *sliceIt) Next() ([]byte, []byte, error) {
 }
 
 type captureWriter struct {
-	out []pair
+	sstables.SSTableStreamWriterI // nil, see sliceReader
+	out                           []pair
 }
 
 func (w *captureWriter) Open() error { return nil }
